@@ -748,6 +748,11 @@ def foreign_corrupt_cases(rng, tier, flavour="asan"):
         out += kdlegacy.corrupt_cases(rng, tier, flavour=flavour)
     except Exception as ex:       # noqa: BLE001
         C.log(f"[robustgen] kdlegacy not used: {ex}")
+    try:
+        from . import meshlegacy
+        out += meshlegacy.corrupt_cases(rng, tier, flavour=flavour)
+    except Exception as ex:       # noqa: BLE001
+        C.log(f"[robustgen] meshlegacy not used: {ex}")
     return out
 
 
